@@ -144,6 +144,8 @@ def record_and_validate(chk, n, rng):
             return job, "error", "rc=%d %s" % (p.returncode, p.stderr[-500:]), None
         events = [json.loads(l) for l in open(path)]
         r = validate_trace(path, ["c%d" % (k + 1) for k in range(job["clients"])])
+        if not r.ok and not r.printed.get("REJECTED") and not r.violated:
+            return job, "error", "TLC gave no verdict on the recorded trace: %s" % ((r.error or r.raw_tail or "")[:600]), None
         return job, ("accepted" if r.ok else "rejected"), r, events
 
     try:
